@@ -3,11 +3,14 @@ from __future__ import annotations
 
 import itertools
 
+import impl_hist  # noqa: F401
+
 import oracle
 from checks import callcommon, ctxcommon
 from framework import Case
 
 PROP = "C11"
+GENERATED = ['DtypeTables']  # generated files this check's tie depends on
 LEAN_MODULES = ["Properties.C11"]
 RULE = (
     "exhaustive over flat tuple hints of length 1..4 (quick) / 1..5 (thorough) with annotated / plain positions mixed, as parameter and as "
@@ -49,6 +52,14 @@ def cases(tier, rng, run):
                         vals.append(f"T,{dtn},{'.'.join(map(str, sh))}")
                     if not ok:
                         continue
+                    # an optional element given None must not end the checking of the later elements
+                    if rng.random() < 0.35:
+                        cand = [i for i, k in enumerate(kinds) if k != 2 and i != fault_pos and i < n - 1]
+                        if cand:
+                            j = rng.choice(cand)
+                            c0, _o, sh0 = specs[j].split(",", 2)
+                            specs[j] = f"{c0},1,{sh0}"
+                            vals[j] = "N"
                     p = f"P|t|T|{';'.join(specs)}|U:{';'.join(vals)}"
                     first = "P|x|S|FloatTensor,0,a|T,2:float32,3"
                     out.append(Case(f"CALL\tfunc:pos\t-\t\t{first}\t{p}", f"param{n}"))
@@ -56,10 +67,33 @@ def cases(tier, rng, run):
                     if fault_kind == "lit" and rng.random() < 0.3:
                         out.append(Case(f"CALL\tnt:pos\t-\t\t{first}\t{p}", f"nt{n}"))
                         out.append(Case(f"CALL\tdc:kw\t-\t\t{first}\t{p}", f"dc{n}"))
+    # the same annotation OBJECT used as a plain hint and inside a tuple hint (caches keyed by value must not mix them up)
+    t2, t3 = "T,0:float32,2", "T,0:float32,3"
+    for first, second in (("x=T0:0|(T0:0)", "x=(T0:0)|T0:0"), ("x=(T0:0)|T0:0", "x=T0:0|(T0:0)"), ("x=T0:0|(T0:0+T0:0)", "x=(T0:0)|(T0:0)")):
+        for bad in (False, True):
+            steps = ["A|T0|FloatTensor,0,a"]
+            calls = []
+            for fid, sig in (("f", first), ("g", second)):
+                ps, ret = sig.split("|")
+                steps.append(f"D|{fid}|-|{ps}|{ret}|-")
+                xv = f"U:{t2}" if ps.endswith(")") else t2
+                rv = t3 if bad else t2
+                n_ret = ret.count("T0")
+                retv = ("U:" + "+".join([rv] * n_ret)) if ret.startswith("(") else rv
+                calls.append(f"C|{fid}|x|{xv}|{retv}")
+            out.append(Case("HIST\t" + "\t".join(steps + calls + calls), "alias"))
     return out
 
 
 def judge(case, impl_out, spec):
+    if case.tag == "alias":
+        bad = "T,0:float32,3" in case.line
+        for part in impl_out.split(" ## ")[:-1]:
+            if not bad and part != "calls=1 ok":
+                return "a conforming call through a hint that shares its annotation object with another hint is rejected: " + part
+            if bad and not part.startswith("calls=1 reject shape"):
+                return "a violating tuple element was not reported as a shape error of its position: " + part
+        return None
     c = ctxcommon.ctx_of(case)
     if c is None:
         return None
